@@ -1,6 +1,7 @@
 package chainsim
 
 import (
+	"github.com/elastos/Elastos.ELA/utils"
 	"crypto/sha256"
 	"encoding/binary"
 	"fmt"
@@ -86,6 +87,9 @@ type node struct {
 	blockPool *mempool.BlockPool
 	svc       *pow.Service
 	arbiters  *state.Arbiters
+	lockset   []string // lock-discipline breaches seen by the History probe
+	locksetChecks int
+	locksetRollbacks int
 	committee *crstate.Committee
 	ckp       *checkpoint.Manager
 	ledger    *blockchain.Ledger
@@ -201,6 +205,26 @@ func newNode(dir string, cfg *config.Configuration, minerAddr string, v2active u
 	}
 	n.arbiters = arbiters
 	ledger.Arbitrators = arbiters
+	// Lock discipline (C40): whatever rewrites the DPoS state through its change
+	// history (commit, seek, rollback) does so with the owner's lock held. The
+	// probe runs on the operating goroutine at the start of the History call.
+	utils.VerifOnHistoryOp = func(h *utils.History, op string) {
+		switch h {
+		case arbiters.State.History:
+			n.locksetChecks++
+			if op == "rollback" {
+				n.locksetRollbacks++
+			}
+			if !arbiters.State.VerifWriteLockHeld() {
+				n.lockset = append(n.lockset, "state-history-"+op+"-without-state-write-lock")
+			}
+		case arbiters.History:
+			n.locksetChecks++
+			if !arbiters.VerifLockHeld() {
+				n.lockset = append(n.lockset, "arbiters-history-"+op+"-without-arbiters-lock")
+			}
+		}
+	}
 	var arbIface state.Arbitrators = arbiters
 	if v2active > 0 || cc != nil {
 		arbIface = &v2Arbiters{Arbiters: arbiters, active: v2active, cc: cc}
@@ -298,6 +322,7 @@ func (n *node) close() {
 		cs.CloseLeveldb()
 	}
 	events.VerifReset()
+	utils.VerifOnHistoryOp = nil
 }
 
 // seedGlobals pins the process-global sources the node draws from.
